@@ -5,7 +5,21 @@ package sim
 // its own property.
 
 func init() {
-	profiles["base"] = &Profile{Name: "base"}
+	profiles["base"] = &Profile{Name: "base", Tail: func(r *PRNG, s *Sim) []Step {
+		// a user edit arrives while a worker is in the middle of the set's reconcile and
+		// a second worker is idle: the key must not be handed out twice (the queue keeps
+		// it back until the first pass is done)
+		if s.Cfg.Workers < 2 || !r.Chance(0.5) {
+			return nil
+		}
+		_, sc := s.getSet(0)
+		if sc == nil {
+			return nil
+		}
+		return []Step{{K: "pause", A: 0, B: 0}, {K: "settle"}, {K: "touch", A: 0}, {K: "deliverall"}, {K: "worker"},
+			{K: "template", A: 0, B: (sc.Template + 1 + r.Intn(3)) % 4}, {K: "deliverall"}, {K: "worker"}, {K: "relto", A: 1, B: 9},
+			{K: "deliverall"}, {K: "finish"}}
+	}}
 
 	// fault-free: separates ordinary bugs from fault-handling bugs
 	profiles["nofault"] = &Profile{Name: "nofault", Tweak: func(r *PRNG, c *Config) {
